@@ -11,6 +11,7 @@ from vlib import common
 from vlib.common import Item
 
 PI, M, L, S, P = (('parse_include', None), ('modify', None), ('load', None), ('store', None), ('purge', None))
+VL = ('vload', None)
 
 KEY_SAME_TS = 'stale-entry-same-timestamp'
 KEY_STORE_AFTER_MODIFY = 'store-after-source-modified'
@@ -40,6 +41,12 @@ def scenarios(tier):
         ('parse-include + version change, 1 crash', dict(ops=[PI, P], initial_entry='ok', kills=1), True, 140),
         ('2 parse-includes + 1 modification, fresh entry, coarse clock', dict(ops=[PI, PI, M], initial_entry='ok'),
          False, 140),
+        ('2 loads, torn entry', dict(ops=[L, L], initial_entry='torn'), True, 100),
+        ('load + version change, torn entry', dict(ops=[L, P], initial_entry='torn'), True, 100),
+        ('2 version changes', dict(ops=[P, P], initial_entry='ok'), True, 100),
+        ('version change (may crash) + start of a new-version scanner that loads',
+         dict(ops=[P, VL], initial_entry='ok', kills=1), True, 140),
+        ('2 new-version scanners start and load, 1 crash', dict(ops=[VL, VL], initial_entry='ok', kills=1), True, 140),
     ]
     if not q:
         out = [(n, s, f, 1300) for (n, s, f, t) in out]
@@ -223,6 +230,15 @@ def _fake_sequence(seq):
             eng.guide.append(fr)
             eng.depth += 1
             return c
+        if kind == 'clock':
+            # the real run spaces its time stamps 10 s apart: truncated values stay distinct
+            import re
+            a, b = map(int, re.findall(r'\d+', labels['cmp']))
+            fr = sched.Frame(kind, options, labels)
+            fr.chosen = a >= b
+            eng.guide.append(fr)
+            eng.depth += 1
+            return fr.chosen
         return orig(kind, options, labels)
     eng._decide = forced
     eng.run()
